@@ -21,6 +21,7 @@ import os
 import re
 import shutil
 import subprocess
+import time
 
 from vlib import build, common, isadb, rwgen
 from vlib import x86gen as G
@@ -90,6 +91,7 @@ def table_cases(forms, rng, tier):
     gen = G.Gen(rng)
     gen.canonical = True
     cases = []
+    evex_names = set(f["name"] for f in forms if f["prefix"] == "EVEX")
     for f in forms:
         modes = [64] if f["arch"] in ("ANY", "X64") else [32]
         if tier == "thorough" and f["arch"] == "ANY":
@@ -106,6 +108,15 @@ def table_cases(forms, rng, tier):
                     c = gen.new_case(f, mode, ops, "mem" if want_mem else "reg", opts, ("k", 3) if masked else None)
                     c["masked"] = masked
                     cases.append(c)
+                    # {vex} / {vex3}: the VEX form of an instruction that also has an EVEX form, asked for explicitly (instructions
+                    # that prefer EVEX - AVX_VNNI, AVX_IFMA, AVX_NE_CONVERT twins - are encoded as EVEX without the option, and
+                    # query_features has to follow the option exactly as the assembler does)
+                    if f["prefix"] == "VEX" and f["name"] in evex_names and not masked:
+                        for vtag, vbit in (("vex", G.OPT_VEX), ("vex3", G.OPT_VEX3)):
+                            vc = gen.new_case(f, mode, list(ops), ("mem" if want_mem else "reg") + "+" + vtag, vbit, None)
+                            vc["masked"] = False
+                            vc["vexopt"] = vtag
+                            cases.append(vc)
                     # boundary of the upper vector bank: exactly one vector register operand gets id 16 / 31 and the
                     # {evex} hint is NOT given - the assembler must pick EVEX by itself and query_features must follow
                     if f["prefix"] == "EVEX" and mode == 64 and not masked:
@@ -171,11 +182,102 @@ def mask_of(index, width):
     return m
 
 
+ALLOC_TYPES = ("gp8lo", "gp8hi", "gp16", "gp32", "gp64", "xmm", "ymm", "zmm", "k", "mm")
+
+
+def judge_phys(chk, f, c, r, kb, replay, stats, fixed_pos, phys_names):
+    """fixed / implicit registers: kRegPhysId / kMemPhysId / phys_id against the database operand AND against the assembler
+    (a flagged operand must be accepted with the register phys_id; an operand that is not flagged must be accepted with another
+    register: that is how the register allocator reads the flag). Allocatable register groups and memory base registers only."""
+    pa = {x[0]: x for x in r.get("pa", [])}
+    line = G.case_line(c)
+    rels = [(o.get("regIndexRel") or 0) for o in f["operands"]]
+    for i, o in enumerate(f["operands"]):
+        if i >= len(r["ops"]) - 1 or i >= len(c["ops"]):
+            continue
+        op = c["ops"][i]
+        flags, phys = r["ops"][i][0], r["ops"][i][6]
+        rec = pa.get(i)
+        if op[0] == "R":
+            if op[1] not in ALLOC_TYPES:
+                continue
+            flagged = bool(flags & 0x100)
+            dbfixed = o["reg"] in G.FIXED_REGS and G.FIXED_REGS[o["reg"]][0] in ALLOC_TYPES
+            in_run = bool(rels[i]) or (i + 1 < len(rels) and bool(rels[i + 1]))
+            what, passed = "register", op[2]
+            role = "op%d" % i
+        elif op[0] == "M":
+            base = op[1].get("base")
+            if not base or base[0] not in ("gp16", "gp32", "gp64"):
+                continue
+            flagged = bool(flags & 0x200)
+            dbfixed = rwgen.implicit_base(f, o) is not None or f["name"] in ("xlatb", "clzero", "monitor", "monitorx", "umonitor")
+            in_run = False
+            what, passed = "base register", base[1]
+            role = "op%d:base" % i
+        else:
+            continue
+        stats["phys:operands-examined"] += 1
+        if dbfixed:
+            stats["phys:db-fixed-operands"] += 1
+        if flagged:
+            stats["phys:flagged"] += 1
+            phys_names.add(f["name"])
+            if phys == passed:
+                if dbfixed:
+                    stats["phys:flagged-id-equals-db-register"] += 1
+                elif (f["name"], len(f["operands"]), i) in fixed_pos:
+                    stats["phys:free-operand-flagged-table-row-shared-with-a-fixed-form-not-judged"] += 1
+                else:
+                    chk.violation("T:%s:%s:free-operand-reported-fixed" % (kb, role), "database: operand %d (%s) is a free %s in every %d-operand form of %s; query_rw_info flags it %s with phys_id=%d for %s" %
+                                  (i, o["data"], what, len(f["operands"]), f["name"], "kRegPhysId" if op[0] == "R" else "kMemPhysId", phys, line), replay)
+                continue
+            err = rec[3] if rec else -1
+            if dbfixed:
+                chk.violation("T:%s:%s:phys-id-differs-from-db" % (kb, role), "database: operand %d (%s) is the fixed %s id %d (the assembler encodes %s with it); query_rw_info reports phys_id=%d (assembler with that register: error %s) for %s" %
+                              (i, o["data"], what, passed, r["bytes"], phys, err, line), replay)
+            elif err != 0:
+                chk.violation("T:%s:%s:phys-id-not-accepted" % (kb, role), "operand %d (%s) is flagged as fixed to %s id %d, but the assembler rejects the instruction with that register (error %s) while it encodes %s as %s" %
+                              (i, o["data"], what, phys, err, line, r["bytes"]), replay)
+            elif (f["name"], len(f["operands"]), i) in fixed_pos:
+                stats["phys:free-operand-flagged-table-row-shared-with-a-fixed-form-not-judged"] += 1
+            else:
+                chk.violation("T:%s:%s:free-operand-reported-fixed" % (kb, role), "database: operand %d (%s) is a free %s in every %d-operand form of %s; query_rw_info flags it fixed to id %d for %s" %
+                              (i, o["data"], what, len(f["operands"]), f["name"], phys, line), replay)
+            continue
+        # not flagged: any register of the class must do
+        if in_run:
+            stats["phys:consecutive-run-members-not-probed"] += 1
+            continue
+        if rec is None:
+            stats["phys:unflagged-no-alternative-register-available"] += 1
+            continue
+        stats["phys:unflagged-probed-with-another-register"] += 1
+        if rec[3] == 0:
+            if dbfixed:
+                stats["phys:db-fixed-operand-free-through-another-form"] += 1
+            continue
+        if dbfixed:
+            chk.violation("T:%s:%s:fixed-register-not-reported" % (kb, role), "database: operand %d (%s) is the fixed %s id %d and the assembler rejects every other register tried (last: id %d, error %d), but query_rw_info "
+                          "does not flag it %s (flags=0x%x phys_id=%d): an allocator may pick any register; case %s -> %s" %
+                          (i, o["data"], what, passed, rec[2], rec[3], "kRegPhysId" if op[0] == "R" else "kMemPhysId", flags, phys, line, r["bytes"]), replay)
+        else:
+            stats["phys:free-operand-alternatives-refused-not-judged"] += 1
+
+
 def judge_table(chk, forms, cases, recs, known_features, cov):
     by_id = {r["id"]: r for r in recs if r.get("id", -1) >= 0}
     unmapped = set()
     stats = collections.Counter()
     samples = []
+    fixed_pos = set()
+    for f in forms:
+        for i, o in enumerate(f["operands"]):
+            if (o["reg"] in G.FIXED_REGS and G.FIXED_REGS[o["reg"]][0] in ALLOC_TYPES) or (o["mem"] and rwgen.implicit_base(f, o) is not None):
+                fixed_pos.add((f["name"], len(f["operands"]), i))
+    phys_names = set()
+    default_evex = set()      # VEX database forms the assembler encodes as EVEX when no option is given
+    vex_judged = set()
     for c in cases:
         r = by_id.get(c["id"])
         if r is None:
@@ -184,7 +286,7 @@ def judge_table(chk, forms, cases, recs, known_features, cov):
         kb = "%s:%s" % (f["name"], rwgen.form_sig(f))
         if False:
             kb += ":x86"
-        replay = {"mode": "table", "lines": [G.case_line(c)], "tcase": {k: c[k] for k in ("id", "arch", "form", "name", "opts", "extra", "ops", "variant", "masked")}}
+        replay = {"mode": "table", "lines": [G.case_line(c)], "tcase": {k: c.get(k) for k in ("id", "arch", "form", "name", "opts", "extra", "ops", "variant", "masked", "vexopt")}}
         stats["queried"] += 1
         if r["e"] != 0 or r["v"] != 0:
             stats["assembler-or-validator-refuses"] += 1
@@ -227,6 +329,7 @@ def judge_table(chk, forms, cases, recs, known_features, cov):
                 if is_gp and o["write"] and (flags & 2) and (m & ~(wmask | xmask)):
                     chk.violation("T:%s:op%d:write-mask-smaller-than-db" % (kb, i), "database: operand %d (%s) writes bits %d..%d; reported write_byte_mask=0x%x extend=0x%x for %s" %
                                   (i, o["data"], o["rwxIndex"], o["rwxIndex"] + o["rwxWidth"] - 1, wmask, xmask, G.case_line(c)), replay)
+        judge_phys(chk, f, c, r, kb, replay, stats, fixed_pos, phys_names)
         # flags
         if f["name"] != "mov":
             for k, v in f["io"].items():
@@ -239,8 +342,17 @@ def judge_table(chk, forms, cases, recs, known_features, cov):
                 if v in ("W", "U", "0", "1", "X") and not (r["wf"] & bit):
                     chk.violation("T:%s:flag-write:%s" % (kb, k), "database io %s=%s but write_flags=0x%x for %s" % (k, v, r["wf"], G.case_line(c)), replay)
         # features
+        if c.get("vexopt"):
+            stats["vex-option:cases-encoded"] += 1
+            if r["enc"] != "vex":
+                stats["vex-option:not-vex-encoded-not-judged"] += 1    # which forms the assembler knows is C13's business
+        elif f["prefix"] == "VEX" and r["enc"] == "evex":
+            default_evex.add(f["name"])
         if "APX_F" not in f["ext"] and same_encoding(f, r):
             stats["feature-judged"] += 1
+            if c.get("vexopt"):
+                stats["vex-option:feature-judged"] += 1
+                vex_judged.add(f["name"])
             is512 = any(o["reg"] == "zmm" for o in f["operands"]) or ".512." in f["opcodeString"]
             for e in f["ext"]:
                 if e not in known_features:
@@ -270,7 +382,11 @@ def judge_table(chk, forms, cases, recs, known_features, cov):
             chk.violation("C:%s:spurious-lead-count" % kb, "no consecutive run in the database form but consecutive_lead_count reported: %s" % r["ops"], replay)
         if len(samples) < 3 and f["name"] in ("adc", "vpternlogd", "pmovzxbw"):
             samples.append({"case": G.case_line(c), "answer": {k: r[k] for k in ("ops", "rf", "wf", "feat", "enc")}})
+    stats["vex-option:instructions-judged"] = len(vex_judged)
+    stats["vex-option:instructions-encoded-evex-without-the-option-now-judged"] = len(default_evex & vex_judged)
+    stats["phys:instructions-with-a-flagged-operand"] = len(phys_names)
     cov["table"] = dict(stats)
+    cov["table_prefer_evex_instructions_judged_under_vex_option"] = sorted(default_evex & vex_judged)[:40]
     cov["table_samples"] = samples
     cov["ext_names_without_feature_id"] = sorted(unmapped)
     return stats
@@ -328,11 +444,81 @@ def rm_cases(forms, rng, tier):
     return cases
 
 
-def judge_rm(chk, forms, cases, recs, cov):
+def enc_class_of(hexbytes):
+    b = bytes.fromhex(hexbytes)
+    i = 0
+    while i < len(b) and b[i] in (0x66, 0xF2, 0xF3, 0x67, 0x2E, 0x36, 0x3E, 0x26, 0x64, 0x65, 0xF0):
+        i += 1
+    if i >= len(b):
+        return "none"
+    if b[i] == 0x62:
+        return "evex"
+    if b[i] in (0xC4, 0xC5):
+        return "vex"
+    if b[i] == 0x8F and i + 1 < len(b) and (b[i + 1] & 0x1F) >= 8:
+        return "xop"
+    if b[i] == 0xD5:
+        return "rex2"
+    return "legacy"
+
+
+def form_accepts(g, ops, arch):
+    """could database form g be the form of this operand list (register classes, memory size, immediates)?"""
+    if len(g["operands"]) != len(ops) or (g["arch"] == "X86" and arch == "x64") or (g["arch"] == "X64" and arch != "x64"):
+        return False
+    for o, op in zip(g["operands"], ops):
+        if op[0] == "R":
+            if not o["reg"]:
+                return False
+            if o["reg"] in G.FIXED_REGS:
+                t, rid = G.FIXED_REGS[o["reg"]]
+                if (t, rid) != (op[1], op[2]):
+                    return False
+                continue
+            cls = rwgen.op_class(o)
+            if cls != (op[1] if op[1] not in ("gp8lo", "gp8hi") else "gp8"):
+                return False
+        elif op[0] == "M":
+            if not o["mem"] or rwgen.mem_size(o) != op[1]["size"]:
+                return False
+        elif op[0] == "I":
+            if not (o["imm"] or o["data"] in ("1", "dfv")):
+                return False
+        else:
+            return False
+    return True
+
+
+# "every CPU that has X has Y" - the architecturally fixed chains only
+IMPLIED = {"SSE2": ["SSE"], "SSE3": ["SSE2"], "SSSE3": ["SSE3"], "SSE4_1": ["SSSE3"], "SSE4_2": ["SSE4_1"], "AVX": ["SSE4_2"], "AVX2": ["AVX"], "AVX512_F": ["AVX2", "FMA", "F16C"]}
+
+
+def closure(feats):
+    out = set(feats)
+    work = list(feats)
+    while work:
+        e = work.pop()
+        nxt = list(IMPLIED.get(e, []))
+        if e.startswith("AVX512_") and e != "AVX512_F":
+            nxt.append("AVX512_F")
+        for n in nxt:
+            if n not in out:
+                out.add(n)
+                work.append(n)
+    return out
+
+
+def judge_rm(chk, forms, cases, recs, cov, known_features=None):
     by_id = {r["id"]: r for r in recs if r.get("id", -1) >= 0}
+    by_name = collections.defaultdict(list)
+    for g in forms:
+        by_name[(g["name"], len(g["operands"]))].append(g)
+    if known_features is None:
+        known_features = set(e for g in forms for e in g["ext"])
     st = collections.Counter()
     by_tag = collections.Counter()
     inst_claims, inst_opts, inst_opts_claims = set(), set(), set()
+    rmf_names, need_names = set(), set()
     samples = []
     for c in cases:
         r = by_id.get(c["id"])
@@ -361,7 +547,42 @@ def judge_rm(chk, forms, cases, recs, cov):
             inst_opts.add(f["name"])
         st["kRegMem_without_rm_size_not_judged"] += r.get("rmflag0", 0)
         has_imm = any(op[0] == "I" for op in c["ops"])
-        for i, size, ev, ee, mbytes, imm_refused in r["claims"]:
+        for i, size, ev, ee, mbytes, imm_refused, ef, mfeat in r["claims"]:
+            # rm_feature: what the memory form needs beyond the register form must be announced (the allocator patches reg -> mem
+            # whenever cpu_features().has(rm_feature)). Reference = the database: ext of the form the emitted memory encoding belongs to
+            # vs. ext of the register form (query_features may over-approximate, so it is not the reference).
+            if ev == 0 and ee == 0 and mbytes and r["bytes"] and same_encoding(f, {"enc": enc_class_of(r["bytes"]), "bytes": r["bytes"]}):
+                rmf = r.get("rmf") or ""
+                if rmf:
+                    st["rm_feature_claims_with_rm_feature"] += 1
+                    rmf_names.add(f["name"])
+                mops = list(c["ops"])
+                mops[i] = ("M", {"size": size})
+                menc = {"enc": enc_class_of(mbytes), "bytes": mbytes}
+                cands = [g for g in by_name.get((f["name"], len(f["operands"])), []) if form_accepts(g, mops, c["arch"]) and same_encoding(g, menc)]
+                if not cands:
+                    st["rm_feature_memory_form_not_found_in_database_not_judged"] += 1
+                else:
+                    st["rm_feature_claims_judged"] += 1
+                    have = closure(set(f["ext"]) | ({rmf} if rmf else set()))
+                    verdicts = []
+                    for g in cands:
+                        needm = set(e for e in g["ext"] if e in known_features)
+                        if any(o["reg"] == "zmm" for o in g["operands"]) or ".512." in g["opcodeString"]:
+                            needm.discard("AVX512_VL")
+                        verdicts.append(needm - have)
+                    if any(set(e for e in g["ext"] if e in known_features) - closure(set(f["ext"])) for g in cands):
+                        st["rm_feature_memory_form_needs_more_than_register_form"] += 1
+                        need_names.add(f["name"])
+                    missing = set.intersection(*verdicts)
+                    if "AVX512_VL" in missing and rmf.startswith("AVX512"):
+                        missing.discard("AVX512_VL")      # one feature id cannot name F/BW and VL: VL is taken to accompany them (assumption)
+                        st["rm_feature_avx512_vl_implied_not_judged"] += 1
+                    if missing:
+                        chk.violation("M:%s:op%d:memory-form-needs-unreported-feature:%s" % (kb, i, "+".join(sorted(missing))),
+                                      "query_rw_info(%s) reports operand %d replaceable by m%d with rm_feature=%s; database: the register form (%s) needs %s, the memory form (%s = `%s`) needs %s: %s is required by "
+                                      "the memory form only and not announced (query_features: register form %s, memory form %s)" %
+                                      (line, i, size * 8, rmf or "none", r["bytes"], sorted(f["ext"]), mbytes, cands[0]["opcodeString"], sorted(cands[0]["ext"]), sorted(missing), sorted(r["feat"]), sorted(mfeat)), replay)
             if imm_refused and has_imm:   # the immediate of this case only fits the register form (validate: kInvalidImmediate)
                 st["claims_skipped_immediate_fits_register_form_only"] += 1
                 continue
@@ -395,6 +616,8 @@ def judge_rm(chk, forms, cases, recs, cov):
         "distinct_instructions_with_rm_claims_tested": len(inst_claims),
         "distinct_instructions_queried_with_er_or_sae": len(inst_opts),
         "distinct_instructions_with_rm_claims_tested_under_er_or_sae": len(inst_opts_claims),
+        "instructions_reporting_rm_feature": sorted(rmf_names)[:60],
+        "instructions_whose_memory_form_needs_more_features": sorted(need_names)[:60],
         "samples": samples,
     })
     return st
@@ -570,7 +793,7 @@ def _replay(chk, args, exe, exe_asan, wd):
             c["extra"] = tuple(c["extra"]) if c["extra"] else None
             rc, out, err = run_lines(exe_asan, "rmopt", case["lines"], os.path.join(wd, "replay.txt"))
             if not sanitizer_violation(chk, err, "reg/mem replaceability queries", case):
-                judge_rm(chk, isadb.x86_forms(), [c], parse_records(out), chk.coverage)
+                judge_rm(chk, isadb.x86_forms(), [c], parse_records(out), chk.coverage, set(host_info(exe)["all"]))
         else:   # a whole shard that ended in a sanitizer report
             rc, out, err = run_lines(exe_asan, "rmopt", case["lines"], os.path.join(wd, "replay.txt"))
             sanitizer_violation(chk, err, "reg/mem replaceability queries", case)
@@ -597,7 +820,11 @@ def _run(chk, tier, args, exe, exe_asan, wd):
     rng = common.Rng(chk.seed).fork("c12")
 
     # ---- T1 -----------------------------------------------------------------------------------------------------
+    phase = {}
+    t0 = time.time()
     cov["tablegen_regenerated_identical"] = tablegen_differential(chk)
+    phase["tablegen"] = round(time.time() - t0, 1)
+    t0 = time.time()
 
     # ---- T2 / C / F-superset (ASan build, no execution) ------------------------------------------------------------
     tcases = table_cases(forms, rng.fork("table"), tier)
@@ -617,6 +844,8 @@ def _run(chk, tier, args, exe, exe_asan, wd):
             raise common.HarnessError("drv_rw --mode table rc=%s: %s" % (rc, err[-400:]))
         recs += parse_records(out)
     judge_table(chk, forms, tcases, recs, known_features, cov)
+    phase["table"] = round(time.time() - t0, 1)
+    t0 = time.time()
 
     # ---- M, encodability half incl. {sae}/{er}/{k}/{z} (ASan build, no execution) --------------------------------------
     rcases = rm_cases(forms, rng.fork("rmopt"), tier)
@@ -637,8 +866,10 @@ def _run(chk, tier, args, exe, exe_asan, wd):
             raise common.HarnessError("drv_rw --mode rmopt rc=%s: %s" % (rc, err[-400:]))
         recs += parse_records(out)
     if rm_ok:
-        judge_rm(chk, forms, rcases, recs, cov)
+        judge_rm(chk, forms, rcases, recs, cov, known_features)
 
+    phase["rmopt"] = round(time.time() - t0, 1)
+    t0 = time.time()
     # ---- C (AArch64) -------------------------------------------------------------------------------------------
     acases = a64_list_cases(isadb.a64_forms())
     rc, out, err = run_lines(exe_asan, "a64c", ["%d %s %d %s %d" % (c["id"], c["name"], c["n"], c["shape"], c["first"]) for c in acases], os.path.join(wd, "a64c.txt"))
@@ -647,6 +878,8 @@ def _run(chk, tier, args, exe, exe_asan, wd):
             raise common.HarnessError("drv_rw --mode a64c rc=%s: %s" % (rc, err[-400:]))
         judge_a64(chk, acases, parse_records(out), cov)
 
+    phase["a64"] = round(time.time() - t0, 1)
+    t0 = time.time()
     # ---- W / R / M / F (native execution) ------------------------------------------------------------------------
     excluded = collections.Counter()
     excluded_names = collections.defaultdict(set)
@@ -687,6 +920,21 @@ def _run(chk, tier, args, exe, exe_asan, wd):
             if c is not None:
                 cases.append(c)
                 n_probe += 1
+    # 32-bit mode (native_gp_size == 4) through the 64 -> 32 bit gate: the forms that exist only there and the legacy-encoded GP forms
+    runnable32 = [f for f in forms if rwgen.exclusion(f, host_feats, known_features, 32) is None]
+    if scale < 1.0:
+        runnable32 = [f for i, f in enumerate(runnable32) if (i * scale) % 1.0 < scale or f["arch"] == "X86"]
+    n32 = collections.Counter()
+    for f in runnable32:
+        tags = [t for t in cg.variants_of(f) if t in (("d", "m", "b") if tier == "quick" else ("d", "m", "b", "s"))]
+        if tier != "quick":
+            tags.append("d")
+        for t in tags:
+            c = cg.make_case(f, t, mode=32)
+            if c is not None:
+                cases.append(c)
+                n32["cases"] += 1
+                n32["cases_of_forms_that_exist_in_32_bit_mode_only"] += f["arch"] == "X86"
     nsh = 16 if tier == "quick" else 64
     shards = [[] for _ in range(nsh)]
     for c in cases:
@@ -706,6 +954,9 @@ def _run(chk, tier, args, exe, exe_asan, wd):
     refused = set()
     samples = []
     imprecise = []
+    masked_mem_executed = collections.Counter()
+    masked_mem_names = set()
+    names32 = set()
     for i, argv, rc, out, err in common.parallel_map(run_one, range(nsh)):
         try:
             res = json.loads(out.decode().strip().splitlines()[-1])
@@ -733,17 +984,24 @@ def _run(chk, tier, args, exe, exe_asan, wd):
             ok_runs, changed, ill, segv, fpe = rec[1], rec[2], rec[3], rec[4], rec[5]
             if "fx=" in c["line"] and "p" in c["line"].split("fx=")[1].split()[0]:
                 tot["case_probe_run"] += 1
-            key = (c["form"], c["opts"], c["extra"], " ".join(G.op_token(o) for o in c["ops"]))
+            key = (c["form"], c["arch"], c["opts"], c["extra"], " ".join(G.op_token(o) for o in c["ops"]))
+            if ok_runs and c["arch"] == "x86":
+                n32["cases_executed"] += 1
+                n32["cases_executed_of_forms_that_exist_in_32_bit_mode_only"] += forms[c["form"]]["arch"] == "X86"
+                names32.add(c["name"])
             if ok_runs:
                 executed.add(key)
+                if c["variant"] in ("km", "zm"):
+                    masked_mem_executed[c["variant"]] += 1
+                    masked_mem_names.add(c["name"])
             else:
                 fault_only["sigill" if ill else "sigsegv" if segv else "sigfpe" if fpe else "other"].add("%s %s" % (c["name"], c["sig"]))
             if ill or segv or fpe or rec[6]:
                 faulting["SIGILL" if ill else "SIGSEGV" if segv else "SIGFPE" if fpe else "other"].add(c["name"])
             if changed:
                 nontrivial.add(key)
-                if len(samples) < 4 and c["variant"] in ("s", "k", "m", "b"):
-                    samples.append({"case": c["line"], "ok_images": ok_runs, "r_runs": rec[7], "m_runs": rec[8]})
+                if len(samples) < 6 and c["variant"] in ("s", "k", "m", "b", "km", "zm") and c["variant"] not in [x.get("variant") for x in samples]:
+                    samples.append({"case": c["line"], "variant": c["variant"], "ok_images": ok_runs, "r_runs": rec[7], "m_runs": rec[8]})
         for k, v in res.items():
             if isinstance(v, int):
                 tot[k] += v
@@ -751,6 +1009,8 @@ def _run(chk, tier, args, exe, exe_asan, wd):
             if len(imprecise) < 25 and t.split(" ")[0] not in set(x.split(" ")[0] for x in imprecise):
                 imprecise.append(t)
 
+    phase["run"] = round(time.time() - t0, 1)
+    cov["phase_wall_seconds"] = phase
     cov.update({
         "evaluations": tot["runs"] + tot["r_runs"] + tot["m_runs"],
         "distinct_nontrivial": len(nontrivial),
@@ -781,13 +1041,56 @@ def _run(chk, tier, args, exe, exe_asan, wd):
         "changed_bytes_observed": tot["changed_bytes"], "flag_changes_observed": tot["flags_changed"],
         "zero_extended_bytes_checked": tot["zext_checked"], "pass_through_bytes_seen": tot["passthrough_seen"],
         "state_bytes_flipped_in_r_runs": tot["r_flipped"],
+        "zero_extension_claims": {
+            "gp_bytes_checked": tot["zext_checked"], "gp_bytes_checked_that_the_run_left_unchanged": tot["zext_unchanged_checked"],
+            "vector_mask_mmx_bytes_inside_operand_size_counted_only": tot["zext_vec_checked"], "of_these_nonzero_after_run_imprecise_masks": tot["zext_vec_nonzero"],
+            "gp_bytes_nonzero_but_operand_not_written_in_that_run_conditional_write_no_verdict": tot["zext_nonzero_operand_not_written"],
+            "r_check_old_value_surviving_in_zero_extended_byte_judged": tot["zext_passthrough_judged"],
+            "r_check_same_but_operand_not_written_in_both_runs_conditional_write_no_verdict": tot["zext_passthrough_operand_not_written"], "r_check_same_beyond_operand_size_exempt": tot["zext_passthrough_beyond_size"],
+            "vector_bytes_beyond_operand_size_counted_only": tot["zext_vec_beyond"], "of_these_nonzero_after_run": tot["zext_vec_beyond_nonzero"],
+            "runs_skipped_destination_undefined_bsf_bsr": tot["zext_skipped_undefined"]},
+        "masked_with_plain_memory_operand": {"cases_executed_km": masked_mem_executed["km"], "cases_executed_zm": masked_mem_executed["zm"],
+                                             "distinct_instructions": len(masked_mem_names), "cases_generated_km": variant_count["km"], "cases_generated_zm": variant_count["zm"]},
+        "x86_32_bit_mode": dict(n32, forms=len(runnable32), distinct_instructions_executed=len(names32), images_completed=tot["runs32_ok"]),
+        "mov_op_flag": {"cases_judged": tot["movop_cases"], "runs_distinct_registers": tot["movop_runs_distinct"], "runs_one_register": tot["movop_runs_same_reg"],
+                        "cases_flag_not_consumed_by_allocator_not_judged": tot["movop_flag_not_consumed"]},
+        "uniqueness_probes": {"cases": tot["uniq_cases"], "raised_UD": tot["uniq_ud"], "UD_and_kUnique_reported": tot["uniq_ud_flagged"], "UD_and_both_operands_reported_read": tot["uniq_ud_both_read"],
+                              "images_executed_without_UD": tot["uniq_no_ud"], "of_these_with_kUnique_reported": tot["uniq_no_ud_flagged"]},
         "vector_or_mask_bytes_changed_outside_reported_masks_not_judged": tot["nongp_outside_mask"],
         "vector_mask_imprecision_examples": [t[:300] for t in imprecise[:12]],
         "host": {"brand": host["brand"], "xcr0": host["xcr0"], "features": len(host_feats)},
     })
+    # every added dimension must have observed something, otherwise the run says nothing about it
+    t = cov.get("table", {})
+    rmr = cov.get("rm_replaceability", {})
+    need = {
+        "table: operands flagged kRegPhysId/kMemPhysId": t.get("phys:flagged", 0),
+        "table: database-fixed operands": t.get("phys:db-fixed-operands", 0),
+        "table: unflagged operands probed with another register": t.get("phys:unflagged-probed-with-another-register", 0),
+        "table: {vex}/{vex3} cases with judged features": t.get("vex-option:feature-judged", 0),
+        "table: prefer-EVEX instructions judged under {vex}": t.get("vex-option:instructions-encoded-evex-without-the-option-now-judged", 0),
+        "rmopt: rm_feature claims judged": rmr.get("rm_feature_claims_judged", 0),
+        "rmopt: memory forms needing more features than the register form": rmr.get("rm_feature_memory_form_needs_more_than_register_form", 0),
+    }
+    if scale >= 0.05:
+        need.update({
+            "run: zero-extended GP bytes the run left unchanged": tot["zext_unchanged_checked"],
+            "run: zero-extended vector/mask bytes": tot["zext_vec_checked"],
+            "run: {k} with plain memory operand": masked_mem_executed["km"],
+            "run: {k}{z} with plain memory operand": masked_mem_executed["zm"],
+            "run: kMovOp runs with distinct registers": tot["movop_runs_distinct"],
+            "run: kMovOp runs with one register": tot["movop_runs_same_reg"],
+            "run: uniqueness probes raising #UD": tot["uniq_ud"],
+            "run: cases executed in 32-bit mode": n32["cases_executed"],
+            "run: 32-bit-only forms executed": n32["cases_executed_of_forms_that_exist_in_32_bit_mode_only"],
+        })
+    empty = [k for k, v in need.items() if not v]
+    if empty:
+        raise common.HarnessError("dimension(s) observed nothing: %s" % "; ".join(empty))
     chk.assumptions += [
         "host CPUID (asmjit CpuInfo::host()) is used only to decide which forms to execute; the oracle is the machine image before/after execution",
-        "64-bit mode only: the 91 forms that exist only in 32-bit mode and the 32-bit behaviour of the others are table-checked, not executed",
+        "32-bit mode: the legacy-encoded forms on general-purpose registers / memory (incl. the forms that exist only in 32-bit mode) are executed through a far call into the "
+        "32-bit code segment (W, R, M, F checks as in 64-bit mode; state visible there: eax..edi, flags, xmm0-7, k0-7, mm0-7, the arena); the 32-bit behaviour of VEX/EVEX/MMX/x87 forms is table-checked only",
         "MXCSR, x87 control/status/tag words (except C0-C3), FOP/FIP/FDP and the x87 data registers of x87 instructions are not part of the diff: the RW API has no vocabulary for them; "
         "x87 instructions get the W check on all other state only (no R/M check)",
         "flags the database marks undefined (U) are required to be reported as written (W check) but are exempt from the equality requirement of the R and M checks",
